@@ -218,8 +218,21 @@ func c13Life(c *mon.Ctx, r *mon.Rand) {
 	}
 	perProd := r.Range(1, 300)
 	idents := genM3Idents(r, nIdents)
+	// every twelfth lifetime allocates more distinct tag sets than the reporter's
+	// pools and caches hold (4096 pooled tag slices), each reported at least once
+	// at the end by the first producer - the earliest ones included
+	manyTagSets := r.Chance(1, 12)
+	if manyTagSets {
+		n := r.Range(4200, 5200)
+		idents = idents[:0]
+		for i := 0; i < n; i++ {
+			idents = append(idents, m3Ident{Kind: "counter", Name: "wide", Tags: map[string]string{"shard": "s" + strconv.Itoa(i), "k": "v"}})
+		}
+		nIdents = n
+		c.Class("lifetimes-with-more-than-4096-distinct-tag-sets", 1)
+	}
 	desc := map[string]interface{}{"protocol": protoName(proto), "sinks": nSinks, "queue": opts.MaxQueueSize, "max_packet": opts.MaxPacketSizeBytes,
-		"dead_destination_first": deadDest, "common_tags": len(common), "include_host": opts.IncludeHost, "via_configuration": m3ViaConfiguration, "producers": nProd, "identities": nIdents, "calls_per_producer": perProd, "bucket_tag_names": idName + "/" + bName}
+		"dead_destination_first": deadDest, "more_than_4096_tag_sets": manyTagSets, "common_tags": len(common), "include_host": opts.IncludeHost, "via_configuration": m3ViaConfiguration, "producers": nProd, "identities": nIdents, "calls_per_producer": perProd, "bucket_tag_names": idName + "/" + bName}
 	c.LogCase(fmt.Sprint(desc))
 	stopWatch := c.Watchdog(300*time.Second, "m3-call-or-close-does-not-return", desc)
 	defer stopWatch()
@@ -245,6 +258,15 @@ func c13Life(c *mon.Ctx, r *mon.Rand) {
 				n := pr.Range(1, 12)
 				for k := 0; k < n; k++ {
 					hs = append(hs, allocM3(env.Rep, &idents[pr.Intn(len(idents))]))
+				}
+				if manyTagSets && p == 0 {
+					hs = hs[:0]
+					for k := range idents {
+						hs = append(hs, allocM3(env.Rep, &idents[k]))
+					}
+					for k := range hs {
+						calls[p] = append(calls[p], hs[k].report(pr, p, k))
+					}
 				}
 				for i := 0; i < perProd; i++ {
 					if pr.Chance(1, 40) {
